@@ -63,6 +63,10 @@ type C20Case struct {
 	Layout  *NcbiLayout     `json:"layout,omitempty"`
 	Corrupt *NcbiCorruption `json:"corrupt,omitempty"`
 	Entries []MatEntry      `json:"entries,omitempty"`
+	// kind "raw": a literal table text; ReadNCBI must return exactly Entries, or - with WantErr -
+	// an error and no matrix
+	Raw     gen.B `json:"raw,omitempty"`
+	WantErr bool  `json:"want_err,omitempty"`
 }
 
 func validLabel(b byte) bool {
@@ -329,6 +333,33 @@ func checkC20(c C20Case, o *Obs) error {
 		return checkSymmetrical(c, o)
 	case "gostring":
 		return checkGoString(c, o)
+	case "raw":
+		o.NT = true
+		o.Class("literal table text")
+		o.ClassIf(c.WantErr, "literal table text that must be rejected")
+		var got align.SubstitutionMatrix
+		var err error
+		if p := catch(func() { got, err = smtext.ReadNCBI(bytes.NewReader(c.Raw)) }); p != nil {
+			return fmt.Errorf("ReadNCBI panicked on %q: %v", []byte(c.Raw), p)
+		}
+		if c.WantErr {
+			if err == nil || got != nil {
+				return fmt.Errorf("ReadNCBI accepted a table with a row that has the wrong number of values (%d pairs returned, error %v): %q", len(got), err, []byte(c.Raw))
+			}
+			return nil
+		}
+		if err != nil {
+			return fmt.Errorf("ReadNCBI failed on a well-formed table %q: %v", []byte(c.Raw), err)
+		}
+		if len(got) != len(c.Entries) {
+			return fmt.Errorf("ReadNCBI(%q) returned %d pairs, want %d", []byte(c.Raw), len(got), len(c.Entries))
+		}
+		for _, e := range c.Entries {
+			if v, ok := got[[2]byte{byte(e.A), byte(e.B)}]; !ok || v != float64(e.V) {
+				return fmt.Errorf("ReadNCBI(%q): pair (%d,%d) = %v (present %v), want %v", []byte(c.Raw), e.A, e.B, v, ok, float64(e.V))
+			}
+		}
+		return nil
 	}
 	// domain checks (malformed replay files are ignored)
 	if len(c.Cols) == 0 || len(c.Scores) != len(c.Rows) || c.Layout == nil {
@@ -812,6 +843,45 @@ func exhaustiveC20(thorough bool, emit func(C20Case) bool) {
 	} {
 		if !emit(C20Case{Kind: "sym", Entries: es}) {
 			return
+		}
+	}
+	// fixed-width tables (right-aligned columns, every line of the same length, as the NCBI files
+	// are laid out): valid, and with one extra value placed inside the padding of one row so that
+	// the row keeps its length - a row with the wrong number of values
+	for _, w := range []int{3, 4, 5, 6, 8} {
+		labels := []byte("ARN*")
+		cell := func(t string) string { return strings.Repeat(" ", w-len(t)) + t }
+		lines := []string{" "}
+		var entries []MatEntry
+		for _, c := range labels {
+			lines[0] += cell(string(c))
+		}
+		for i, r := range labels {
+			line := string(r)
+			for j, c := range labels {
+				v := (i*7+j*3)%13 - 6
+				line += cell(fmt.Sprint(v))
+				entries = append(entries, MatEntry{A: int(labelKey(r)), B: int(labelKey(c)), V: gen.F(float64(v))})
+			}
+			lines = append(lines, line)
+		}
+		for _, term := range []string{"\n", "\r\n"} {
+			good := "# fixed width " + fmt.Sprint(w) + term + strings.Join(lines, term) + term
+			if !emit(C20Case{Kind: "raw", Raw: gen.B(good), Entries: entries}) {
+				return
+			}
+			for li := 1; li < len(lines); li++ {
+				line := lines[li]
+				for pos := 1; pos+2 < len(line); pos++ {
+					if line[pos-1] == ' ' && line[pos] == ' ' && line[pos+1] == ' ' {
+						bad := append([]string{}, lines...)
+						bad[li] = line[:pos] + "9" + line[pos+1:]
+						if !emit(C20Case{Kind: "raw", Raw: gen.B(strings.Join(bad, term) + term), WantErr: true}) {
+							return
+						}
+					}
+				}
+			}
 		}
 	}
 	// a long-running process: more calls of Symmetrical than a 16-bit counter holds. Round 0 uses
